@@ -74,6 +74,9 @@ func checkPipeline(t *vk.T, c *gj5s.Case) {
 		if i := strings.Index(fam, "|type="); i > 0 {
 			fam = fam[:i]
 		}
+		if strings.HasPrefix(fam, "pipeline|odd-name:") {
+			fam = "pipeline|odd-name"
+		}
 	}
 	t.Coord("pipeline|" + c.Coord)
 	t.SigCoord("pipeline|" + fam)
